@@ -115,10 +115,16 @@ func (q corsReq) req() hv.Req {
 	if q.ACRM != "" {
 		h["Access-Control-Request-Method"] = q.ACRM
 	}
+	var multi map[string][]string
 	if q.HasACRH {
-		h["Access-Control-Request-Headers"] = q.ACRH
+		// "\n" inside ACRH: the list is spread over several field lines (equivalent to one comma-separated line)
+		lines := strings.Split(q.ACRH, "\n")
+		h["Access-Control-Request-Headers"] = lines[0]
+		if len(lines) > 1 {
+			multi = map[string][]string{"Access-Control-Request-Headers": lines[1:]}
+		}
 	}
-	return hv.Req{Method: q.Method, Path: q.Path, Header: h}
+	return hv.Req{Method: q.Method, Path: q.Path, Header: h, Multi: multi}
 }
 
 func corsRequests(hostile bool, c corsCfg) []corsReq {
@@ -158,7 +164,10 @@ func corsRequests(hostile bool, c corsCfg) []corsReq {
 			}
 		}
 	}
+	addH("Content-Type\nX-Bad") // the list spread over two field lines: an allowed name first, a foreign one on the second line
+	addH("X-Bad\ncontent-type")
 	if len(named) > 1 {
+		addH(strings.Join(named, "\n")) // every allowed name on a line of its own
 		addH(strings.ToLower(strings.Join(named, ", ")))
 		j := strings.Join(named, ",")
 		k := len(named[0])
@@ -178,6 +187,9 @@ func corsRequests(hostile bool, c corsCfg) []corsReq {
 	}
 	return out
 }
+
+// acrhList is the requested-header list as one comma-separated value (several field lines are one list).
+func acrhList(v string) string { return strings.ReplaceAll(v, "\n", ",") }
 
 func tokenSet(s string) string {
 	var t []string
@@ -336,7 +348,7 @@ func corsJob(raw json.RawMessage) (any, error) {
 		// requested headers
 		reqHeadersOK := true
 		if q.HasACRH && !anyHeaders {
-			for _, x := range strings.Split(q.ACRH, ",") {
+			for _, x := range strings.Split(acrhList(q.ACRH), ",") {
 				x = strings.TrimSpace(x)
 				if x == "" {
 					continue
@@ -384,7 +396,7 @@ func corsJob(raw json.RawMessage) (any, error) {
 		if !allowedOrigin || !served {
 			continue
 		}
-		if q.HasACRH && strings.Trim(q.ACRH, ", ") == "" {
+		if q.HasACRH && strings.Trim(acrhList(q.ACRH), ", ") == "" {
 			continue
 		}
 		grant := !preflight || (contains(t.Allow(q.Path), q.ACRM) && reqHeadersOK)
@@ -399,7 +411,7 @@ func corsJob(raw json.RawMessage) (any, error) {
 			class := "acao-missing"
 			if preflight && q.HasACRH && !anyHeaders {
 				class = "requested-header-case"
-				for _, x := range strings.Split(q.ACRH, ",") {
+				for _, x := range strings.Split(acrhList(q.ACRH), ",") {
 					if !contains(c.Headers, strings.TrimSpace(x)) {
 						class = "requested-header-case"
 					}
